@@ -161,6 +161,7 @@ var pureExternal = map[string]bool{
 	"(*bytes.Buffer).Bytes": true, "(*bytes.Buffer).String": true, "(*bytes.Buffer).Len": true,
 	"(*strings.Builder).String": true, "(*strings.Builder).Len": true,
 	"os.UserHomeDir": true, "path/filepath.Join": true,
+	"reflect.TypeOf": true, "reflect.ValueOf": true,
 	"(*os/exec.ExitError).Error": true, "(*go/build.Context).Import": false,
 }
 
